@@ -134,8 +134,9 @@ def run(ctx):
                           "uncapped child: %s bytes of request line in %.2fs grew RSS by %d KiB; child with a 2 GiB address-space cap: %s after "
                           "%s bytes (%s)" % (un and un["sent"], un and un["seconds"] or 0, grow,
                                              "DIED" if died else "survived", cp and cp["sent"], (cp or {}).get("exit_text", "")[:120]))
-    if ob_failed and not ctx.violations and not ctx.known_hits:
-        ctx.violation("obligation-unchecked", dict(unchecked=ob_failed), False, ob_failed[0][:300])
+    # a broken obligation / theorem / translator is reported unless a NEW failing input was found (known findings do not count)
+    if ob_failed and not any(found for _, _, found, _ in ctx.violations):
+        ctx.violation("obligation-unchecked", dict(unchecked=ob_failed), False, "; ".join(o[:160] for o in ob_failed[:4]))
     elif ob_failed:
         ctx.notes.append({"unchecked_obligations": ob_failed})
 
